@@ -68,6 +68,18 @@ def run(task):
                 msg = judge(spec, recipe, backend, obs, opt)
                 if msg:
                     res["violations"].append({"msg": msg, "case": A.case_dict(spec, recipe, backend, KIND)})
+            # non-initial state: the continuum was aligned before (one unit less, another dissimilarity)
+            if len(res["state_set"]) % 5 == 0:
+                warm = {"k": "pos", "de": 0.35} if recipe["k"] != "pos" else {"k": "comb", "a": 1.0, "b": 1.0, "de": 1.0}
+                obs = A.eval_case(spec, recipe, "cbc" if A.cbc_available() else "glpk_noimport", KIND, warm=warm)
+                res["evaluations"] += 1
+                res["transitions"] += 2
+                if obs["ok"]:
+                    res["traces"] += 1
+                    msg = judge(spec, recipe, "cbc", obs, opt)
+                    if msg:
+                        res["violations"].append({"msg": msg + " [continuum aligned before, then completed by add()]",
+                                                  "case": dict(A.case_dict(spec, recipe, "cbc", KIND), warm=warm)})
             if len(res["samples"]) < 2 and opt < n * de * 0.9:
                 res["samples"].append({"continuum": spec, "dissimilarity": recipe, "exact_optimum": opt})
     return res
@@ -75,6 +87,6 @@ def run(task):
 
 def replay(case):
     opt = optimum(case["spec"], case["recipe"], cover=COVER)
-    obs = A.eval_case(case["spec"], case["recipe"], case["backend"], KIND)
+    obs = A.eval_case(case["spec"], case["recipe"], case["backend"], KIND, warm=case.get("warm"))
     msg = judge(case["spec"], case["recipe"], case["backend"], obs, opt)
     return [{"msg": msg, "case": case}] if msg else []
